@@ -93,7 +93,8 @@ pub struct ScenarioInfo {
 pub trait Scenario {
     fn info(&self) -> ScenarioInfo;
     /// Pure function of the rng: the swarm configuration and the full event list.
-    fn generate(&self, rng: &mut Rng, tier: Tier) -> Plan;
+    /// `index` is the run index; scenarios may use it for a systematic (enumerated) prefix of the run space.
+    fn generate(&self, rng: &mut Rng, tier: Tier, index: u64) -> Plan;
     /// Execute an explicit event list against the real library. Must tolerate arbitrary
     /// (minimised) lists: events whose preconditions do not hold are skipped.
     fn execute(&self, plan: &Plan, ctx: &mut RunCtx);
